@@ -87,6 +87,12 @@ class IVFCLevel4Reader(RawIOBase):
         self._seek = 0
         self._lock = Lock()
 
+    @property
+    def closed(self):
+        # closed as well once the file under the hash tree is (the container closes it)
+        # noinspection PyProtectedMember
+        return super().closed or self._tree._fp.closed
+
     @_raise_if_level_closed
     def read(self, size: int = -1) -> bytes:
         if self._seek >= self._lv4.size:
